@@ -101,6 +101,8 @@ pub struct GenCfg {
     pub hazards: Vec<&'static str>,
     /// `/` between two integer-typed operands (excluded under `generic`, whose `/` is the engine's)
     pub int_divf: bool,
+    /// never print a float literal with an integral value (finding C14-float-loses-fraction)
+    pub no_integral_floats: bool,
 }
 
 impl GenCfg {
@@ -116,6 +118,7 @@ impl GenCfg {
             allow_append: true,
             hazards: vec![],
             int_divf: true,
+            no_integral_floats: false,
         }
     }
 }
@@ -411,7 +414,10 @@ impl<'t, 'd> Gen<'t, 'd> {
         match ty {
             Ty::Int => Expr::int(self.t.range(0, 6) - if self.t.chance(1, 5) { 4 } else { 0 }),
             Ty::Float => {
-                let q = self.t.range(1, 12);
+                let mut q = self.t.range(1, 12);
+                if self.cfg.no_integral_floats && q % 4 == 0 {
+                    q += 1;
+                }
                 Expr::Lit(Val::Float(q as f64 / 4.0))
             }
             Ty::Text => Expr::Lit(Val::Text(self.t.pick(TEXTS).to_string())),
